@@ -384,22 +384,30 @@ impl Vm {
     // they are (it reads its arguments through peek); one that does (Fiber.call / Fiber.yield) is outside this contract
     #[verifier::external_body]
     fn run_native(&mut self, native: &ObjNativeS, arg_count: usize) -> (r: Result<Value, Error>)
-        ensures !native.manages_stack ==> final(self).fib == old(self).fib && final(self).ip == old(self).ip && final(self).handling_exception == old(self).handling_exception && final(self).code == old(self).code
+        ensures !native.manages_stack ==> final(self).fib == old(self).fib && final(self).ip == old(self).ip && final(self).handling_exception == old(self).handling_exception && final(self).code == old(self).code,
+            // a FAILING stack-managing native (unit fiberx: a rejected Fiber.call changes nothing, a rejected Fiber.yield
+            // has already taken its argument off the stack) removes at most its own arguments, leaves everything from
+            // the callee slot down — and frames, handlers, instruction pointer — as they were
+            (native.manages_stack && r is Err) ==> arg_count < old(self).fib.stack.view.len() ==> (final(self).fib.stack.view.len() >= old(self).fib.stack.view.len() - arg_count && final(self).fib.stack.view.len() <= old(self).fib.stack.view.len()
+                && final(self).fib.stack.view.take(old(self).fib.stack.view.len() - arg_count) == old(self).fib.stack.view.take(old(self).fib.stack.view.len() - arg_count)
+                && final(self).fib.frames == old(self).fib.frames && final(self).fib.exc_handlers == old(self).fib.exc_handlers && final(self).ip == old(self).ip && final(self).handling_exception == old(self).handling_exception && final(self).code == old(self).code
+                && final(self).fib.return_ip == old(self).fib.return_ip && final(self).fib.return_value == old(self).fib.return_value && final(self).fib.return_handler_count == old(self).fib.return_handler_count && final(self).fib.pending_exception == old(self).fib.pending_exception),
     { unimplemented!() }
 
-    //@fn file=yarel/src/vm.rs path=Vm::call_native ret=r props=C08,C17,C02
+    //@fn file=yarel/src/vm.rs path=Vm::call_native ret=r props=C08,C17,C02,C09
     //@  sig "native: Gc<ObjNative>" => "native: &ObjNativeS"
     //@  subst "self.active_fiber_mut().set_native_arity(arg_count);" => "self.note_native_arity(Some(arg_count));"
     //@  subst "self.active_fiber_mut().take_native_arity();" => "self.note_native_arity(None);"
     //@  subst "let function = native.function; let result = function(self, arg_count);" => "let result = self.run_native(native, arg_count);"
     //@  subst "let exc_object = self.new_root_obj_err_from_error(error); self.poke(0, Value::ObjInstance(exc_object.as_gc()));" => "let exc_object = self.new_root_obj_err_from_error(error); self.poke(0, exc_object);"
-    //@  requires !native.manages_stack, old(self).fib.handlers_ok(), arg_count < old(self).fib.stack.view.len()
+    //@  requires old(self).fib.handlers_ok(), arg_count < old(self).fib.stack.view.len()
     //@  requires forall|i: int| 0 <= i < old(self).fib.exc_handlers@.len() ==> (#[trigger] old(self).fib.exc_handlers@[i]).init_stack_size <= old(self).fib.stack.view.len() - arg_count - 1
     //@  requires old(self).fib.exc_handlers@.len() > 0 ==> old(self).fib.exc_handlers@.last().init_stack_size < STACK_MAX
-    //@  ensures @a_failing_native_is_delivered_to_the_innermost_handler (r is Ok && final(self).fib.exc_handlers@ != old(self).fib.exc_handlers@) ==> final(self).fib.exc_handlers@ == old(self).fib.exc_handlers@.drop_last() && final(self).ip == old(self).fib.exc_handlers@.last().catch_ip
-    //@  ensures @an_uncaught_native_failure_reports_the_address_of_the_call r is Err ==> old(self).fib.exc_handlers@.len() == 0 && final(self).fib.error_ip == Some(old(self).ip)
-    //@  ensures @the_result_replaces_callee_and_arguments (r is Ok && final(self).fib.exc_handlers@ == old(self).fib.exc_handlers@) ==> final(self).fib.stack.view.len() == old(self).fib.stack.view.len() - arg_count && final(self).fib.stack.view.drop_last() == old(self).fib.stack.view.take(old(self).fib.stack.view.len() - arg_count - 1)
-    //@  ensures final(self).fib.handlers_ok()
+    //@  ensures @a_failing_native_is_delivered_to_the_innermost_handler (!native.manages_stack && r is Ok && final(self).fib.exc_handlers@ != old(self).fib.exc_handlers@) ==> final(self).fib.exc_handlers@ == old(self).fib.exc_handlers@.drop_last() && final(self).ip == old(self).fib.exc_handlers@.last().catch_ip
+    //@  ensures @an_uncaught_native_failure_reports_the_address_of_the_call (!native.manages_stack && r is Err) ==> old(self).fib.exc_handlers@.len() == 0 && final(self).fib.error_ip == Some(old(self).ip)
+    //@  ensures @the_result_replaces_callee_and_arguments (!native.manages_stack && r is Ok && final(self).fib.exc_handlers@ == old(self).fib.exc_handlers@) ==> final(self).fib.stack.view.len() == old(self).fib.stack.view.len() - arg_count && final(self).fib.stack.view.drop_last() == old(self).fib.stack.view.take(old(self).fib.stack.view.len() - arg_count - 1)
+    //@  ensures !native.manages_stack ==> final(self).fib.handlers_ok()
+    //@  assert @a_failed_native_leaves_the_handling_functions_variables_intact before_stmt "self.unwind_stack()?" old(self).fib.exc_handlers@.len() > 0 ==> ({ let h = old(self).fib.exc_handlers@.last().init_stack_size as int; self.fib.exc_handlers == old(self).fib.exc_handlers && self.fib.stack.view.len() > h && self.fib.stack.view.take(h) =~= old(self).fib.stack.view.take(h) })
     //@end
 
     // throw: marks the exception as in flight and delivers it
